@@ -32,6 +32,7 @@ RANDOM_CFGS_MORE = ["shard(replica,replica)", "overlay(gate,blobpacked)", "names
 
 # receive || remove of the same blob is not atomic in these stores (known findings F-H31, F-H20d, reproduced by
 # deterministic schedules): their random programs contain no remove, so that every other discrepancy stays visible
+HEAVY_CFGS = {"memory", "localdisk", "diskpacked", "blobpacked"}
 NOREMOVE = {"diskpacked"}
 # receive || remove of the same blob is not atomic in these either (F-H31, F-H26b, deterministic schedules): their random
 # programs never receive and remove the same blob concurrently (-split), every other combination is exercised
@@ -145,18 +146,23 @@ def run(ctx, replay):
     cfgs = RANDOM_CFGS_QUICK + ([] if quick else RANDOM_CFGS_MORE)
     # (clients, ops per client, segments, blobs)
     shapes = [(2, 6, 12, 3, ""), (3, 5, 10, 4, ""), (4, 4, 6, 3, ""), (4, 10, 12, 5, "enumrm")] if quick else \
-        [(2, 8, 40, 3, ""), (3, 6, 40, 5, ""), (4, 5, 30, 4, ""), (8, 3, 20, 4, ""), (16, 2, 10, 3, ""), (4, 10, 40, 5, "enumrm"), (4, 12, 30, 6, "enumrm"), (3, 12, 30, 6, "enumrm")]
+        [(2, 8, 40, 3, ""), (3, 6, 40, 5, ""), (4, 5, 30, 4, ""), (8, 3, 12, 4, ""), (4, 10, 40, 5, "enumrm"), (4, 12, 30, 6, "enumrm"), (3, 12, 30, 6, "enumrm")]
+    # the linearization search is exponential in the number of overlapping calls (measured on memory: 16 clients x 1
+    # operation x 10 segments = 7 M states, 11 min; 16 x 2 did not finish in 15 min): 12 and 16 clients run on four
+    # configurations only, with few segments
+    heavy = [] if quick else [(12, 2, 4, 3, ""), (16, 1, 3, 3, "")]
 
     if os.environ.get("VERIF_C14_CFGS"):  # development aid: only these configurations
         cfgs = os.environ["VERIF_C14_CFGS"].split(";")
     if os.environ.get("VERIF_C14_SHAPES"):  # development aid: "clients,ops,segments,blobs,mix;..."
+        heavy = []
         shapes = [tuple(int(x) if x.isdigit() else x for x in sh.split(",")) for sh in os.environ["VERIF_C14_SHAPES"].split(";")]
     if os.environ.get("VERIF_C14_MIX"):  # development aid: only the shapes of one operation mix
         shapes = [sh for sh in shapes if sh[4] == os.environ["VERIF_C14_MIX"]]
 
     def work(cfg):
         res = []
-        for (cl, ops, segs, nb, mix) in shapes:
+        for (cl, ops, segs, nb, mix) in shapes + (heavy if cfg in HEAVY_CFGS else []):
             safe = re.sub(r"[^A-Za-z0-9]+", "_", cfg)
             out = ctx.path("rnd_%s_%d%s.ndjson" % (safe, cl, mix))
             rc, so, se = ctx.run([drv, "-cfg", cfg, "-out", out, "-seed", str(ctx.seed * 100 + cl), "-clients", str(cl), "-ops", str(ops),
@@ -190,6 +196,10 @@ def run(ctx, replay):
     reps = _idxfam.generate(ctx, _idxfam.shapes(ctx), quick)
     if quick:
         reps = reps[::3]
+        # a blob delivered twice (the second delivery racing with the arrival of its dependencies)
+        import random as _random
+        rr = _random.Random(ctx.seed)
+        reps += [dict(r, order=r["order"] + [rr.choice(r["order"])]) for r in rr.sample(reps, min(80, len(reps)))]
     sink = []
     o5, o6 = _idxfam.run_driver(ctx, reps, tag="conc", race=True, extra=["-conc", "3"], stderr_sink=sink, shards=4)
     for se in sink:
